@@ -331,6 +331,14 @@ func (e *dispEnv) opCreate(rng *Rng) {
 		if rng.Chance(1, 60) {
 			a = "bad_addr"
 		}
+		// bech32 is case-insensitive: an all-upper-case spelling is valid and names the same account
+		if rng.Chance(1, 5) {
+			if a == strings.ToUpper(a) {
+				a = strings.ToLower(a)
+			} else {
+				a = strings.ToUpper(a)
+			}
+		}
 		c := e.genCoins(rng, true)
 		outs = append(outs, banktypes.Output{Address: a, Coins: c})
 		toks = append(toks, a, coinsStr(c))
@@ -442,7 +450,8 @@ func (e *dispEnv) runMsg(runner, name string, t int32, count int64, kind string)
 		ds = strings.Join(deltas, ";")
 	}
 	post := e.storeDump(disptypes.DistributionStatus_DISTRIBUTION_STATUS_PENDING, false)
-	e.out.Emit(fmt.Sprintf("chk c11.run tag=disp.run.paid-by-runner-in-full %s %s %s %d %d pre=%s post=%s deltas=%s", strings.Join(dispDenoms, ","), runner, name, t, count, pre, post, ds), "true", fmt.Sprintf("chk.run.paid%d", minInt(npaid, 3)), false)
+	postFailed := e.storeDump(disptypes.DistributionStatus_DISTRIBUTION_STATUS_FAILED, false)
+	e.out.Emit(fmt.Sprintf("chk c11.run tag=disp.run.paid-by-runner-in-full %s %s %s %d %d pre=%s post=%s postfailed=%s deltas=%s", strings.Join(dispDenoms, ","), runner, name, t, count, pre, post, postFailed, ds), "true", fmt.Sprintf("chk.run.paid%d", minInt(npaid, 3)), false)
 	// nothing is silently dropped: whatever left pending was paid in full or is in the failed store
 	e.out.Emit(fmt.Sprintf("chk c11.leavers tag=disp.run.leaver-paid-or-failed %s pre=%s post=%s postfailed=%s deltas=%s", strings.Join(dispDenoms, ","), pre, post,
 		e.storeDump(disptypes.DistributionStatus_DISTRIBUTION_STATUS_FAILED, false), ds), "true", "chk.leavers", false)
@@ -589,6 +598,51 @@ func (e *dispEnv) directedTwoRunners(rng *Rng) {
 	e.after()
 }
 
+// directed history (non-canonical recipient spellings): one distribution whose output list names
+// the same account in lower-case and in UPPER-CASE bech32 (two pending records under two keys, one
+// account), another account only in upper case and a blocked account in upper case; runs of 1 and
+// of the rest; in the same block a second distribution (other runner) to the upper-case spelling
+// again, and its run.
+func (e *dispEnv) directedSpelling(rng *Rng) {
+	D, A, B := e.users[0].String(), e.users[1].String(), e.users[2].String()
+	U, V, X := e.users[3].String(), e.users[4].String(), e.rcpts[len(e.rcpts)-1]
+	t := int32(1 + rng.Intn(3))
+	name := fmt.Sprintf("%d_%s", e.height, D)
+	mk := func(runner string, addrs []string) {
+		var outs []banktypes.Output
+		var toks []string
+		for _, a := range addrs {
+			c := e.genCoins(rng, false)
+			outs = append(outs, banktypes.Output{Address: a, Coins: c})
+			toks = append(toks, a, coinsStr(c))
+		}
+		msg := disptypes.MsgCreateDistribution{Distributor: D, AuthorizedRunner: runner, DistributionType: disptypes.DistributionType(t), Output: outs}
+		res := e.deliver(msg.ValidateBasic, func(ctx sdk.Context) error {
+			_, err := e.srv.CreateDistribution(sdk.WrapSDKContext(ctx), &msg)
+			return err
+		})
+		if res == "ok" {
+			e.names = append(e.names, name)
+			for _, o := range outs {
+				k := fmt.Sprintf("%s|%d|%s", name, t, o.Address)
+				e.created[k] = e.created[k].Add(o.Coins...)
+			}
+		}
+		e.out.Emit(fmt.Sprintf("d.create %s %s %d %s", D, runner, t, strings.Join(toks, " ")), res, "directed3.create."+res, true)
+		e.after()
+	}
+	mk(A, []string{U, strings.ToUpper(U), strings.ToUpper(V), strings.ToUpper(X), strings.ToUpper(U)})
+	e.runMsg(A, name, t, 1, "directed3.one")
+	e.after()
+	mk(B, []string{strings.ToUpper(U), V})
+	e.runMsg(A, name, t, 20, "directed3.rest")
+	e.after()
+	e.runMsg(B, name, t, 20, "directed3.second")
+	e.after()
+	e.runMsg(A, name, t, 20, "directed3.again")
+	e.after()
+}
+
 func init() {
 	families["disp"] = func(rng *Rng, n int, out *Out, replay string) {
 		ops := 0
@@ -605,6 +659,9 @@ func init() {
 			} else if ops < 60 || rng.Chance(1, 6) {
 				e.directedTwoRunners(rng)
 				ops += 11
+			} else if ops < 120 || rng.Chance(1, 6) {
+				e.directedSpelling(rng)
+				ops += 6
 			}
 			L := 20 + rng.Intn(40)
 			for i := 0; i < L && ops < n; i++ {
